@@ -34,7 +34,7 @@ enum { K_LETTERS, K_QUERIES, K_ANSWERS, K_DUPS, K_CACHE_EXPECTED, K_CACHE_SAME, 
 enum { L_PING, L_DATA_FIRST, L_DATA_LAST, L_DUP, L_TUN, L_TIME, L_RAWLOGIN, L_LAZY, L_SETFRAG, L_RELOGIN };
 enum { V_SAME, V_NEWID, V_NEWSRC, V_UPPER };
 typedef struct letter { int kind, a, b; char name[40]; } letter;
-static letter LT[128]; static int nlt;
+static letter LT[128]; static int nlt, nlt_all;      /* letters [nlt, nlt_all) are used by warm-ups only */
 static void addl(int kind, int a, int b, const char *fmt, ...)
 {
 	letter *l = &LT[nlt++]; l->kind = kind; l->a = a; l->b = b;
@@ -58,11 +58,17 @@ static void mk_alphabet(void)
 		/* the session goes silent for 61 s and a new session (version, login, lazy switch; no size request yet) takes
 		 * over its slot: the limit in force for the new session is the default again */
 		addl(L_RELOGIN, 0, 0, "idle61s+newsession");
+		/* older queries re-delivered with a fresh id: enabled in the warmed-up start states (answer cache wrapped) */
+		for (int k = 1; k <= 4; k++) addl(L_DUP, k, V_NEWID, "redeliver(%d back,newid)", k);
+		nlt_all = nlt;
+		addl(L_TUN, 1000, 0, "tun(1000B)"); { int t = nlt; nlt = nlt_all; nlt_all = t; }
 		return;
 	}
 	addl(L_PING, 0, 0, "ping");
 	addl(L_DATA_FIRST, 0, 0, "data(first,more)");
 	addl(L_DATA_LAST, 0, 0, "data(last)");
+	/* first delivery through a relay that upper-cases the name (0x20-style); the harness remembers the lower-case original */
+	if (is16) addl(L_DATA_LAST, 1, 0, "data(last,upper)");
 	for (int k = 0; k < 4; k++) for (int v = 0; v < 4; v++) {
 		if (KS[k] == 2 && v != V_SAME && v != V_NEWID) continue;
 		addl(L_DUP, KS[k], v, "redeliver(%d back,%s)", KS[k], VN[v]);
@@ -77,6 +83,7 @@ static void mk_alphabet(void)
 	addl(L_RAWLOGIN, 0, 0, "rawlogin");
 	addl(L_LAZY, 1, 0, "lazy-on");
 	addl(L_LAZY, 0, 0, "lazy-off");
+	nlt_all = nlt;
 }
 
 /* ---------------------------------------------------------------- harness-side client model */
@@ -96,7 +103,7 @@ typedef struct model {
 	uint32_t seed;
 	int rawed;
 	int npkt;
-	int lazy, relogins;
+	int lazy, relogins, warm;
 } model;
 static model M;
 static struct sockaddr_storage SRC_A, SRC_A2; static socklen_t SRCLEN;
@@ -259,12 +266,14 @@ static int apply(int li)
 		else { M.up_frag++; off = zl / 2; len = zl - off; M.up_open = 0; M.npkt++; }
 		plen = tm_data(pkt, ++M.idseq, M.qt, 0, M.up_seq, M.up_frag, M.dn_seq, M.dn_frag, last, "abcdefghijklmnopqrstuvwxyz0123456789"[M.datacmc++ % 36], REF_B32, z + off, len, DOM);
 		remember(pkt, plen, 1);
+		if (L->a) for (int k = 1; k <= pkt[12]; k++) pkt[12 + k] = toupper(pkt[12 + k]);
 		send_q(&SRC_A, pkt, plen);
 		break;
 	}
 	case L_DUP: {
 		const sent *h = &M.hist[L->a];
 		if (L->a >= HIST || !h->used) return 1;
+		if (is15 && L->a >= 1 && !M.warm) return 1;
 		memcpy(pkt, h->pkt, h->len); plen = h->len;
 		const struct sockaddr_storage *src = &SRC_A;
 		if (L->b == V_NEWID || L->b == V_NEWSRC) { int id = ++M.idseq; pkt[0] = id >> 8; pkt[1] = id; }
@@ -395,17 +404,18 @@ static void key(uint64_t k[2])
 static const char *lname(int l) { return LT[l].name; }
 
 /* ---------------------------------------------------------------- start states: type x lazy */
-#define NSTART 17
+#define NSTART 20
 /* start states 14..16: warmed-up sessions (NULL lazy, NULL immediate, TXT lazy) */
-static const int WARM_BASE[3] = { 0, 7, 2 };
+static const int WARM_BASE[6] = { 0, 7, 2, /* C15 warm-ups: */ 0, 9, 4 };
 static void start_desc(int st, char *b, size_t n)
 {
 	int base = st >= 14 ? WARM_BASE[st - 14] : st;
 	snprintf(b, n, "session logged in with -T %s, %s mode%s", QTN[base % 7], base < 7 ? "lazy" : "immediate",
+		 st >= 17 ? ", warmed up: N(200), a 1000-byte packet on the server's tun, four fragments fetched and acknowledged (answer cache full and wrapped, fifth fragment outstanding)" :
 		 st >= 14 ? ", warmed up: 17 idle pings, 7 one-fragment packets each way (both 3-bit sequence numbers about to wrap, 24+ pings in the server's query memory)" : "");
 }
 static int apply(int li);
-static int letter_by_name(const char *n) { for (int i = 0; i < nlt; i++) if (!strcmp(LT[i].name, n)) return i; vw_fatal("no letter %s", n); }
+static int letter_by_name(const char *n) { for (int i = 0; i < nlt_all; i++) if (!strcmp(LT[i].name, n)) return i; vw_fatal("no letter %s", n); }
 
 static void expect_one(const char *what)
 {
@@ -451,11 +461,20 @@ static void boot(int st0)
 	handshake();
 	for (int i = 0; i < NPEND; i++) if (M.pending[i].used) vw_fatal("start state: handshake query left unanswered");
 	adv_clear();
-	if (st0 >= 14) {
+	if (st0 >= 17) {
+		int ln = letter_by_name("N(200)"), lt = letter_by_name("tun(1000B)"), lp = letter_by_name("ping(ack)");
+		apply(ln); apply(lt);
+		for (int i = 0; i < 4; i++) apply(lp);
+		struct tun_user *u = &s_w_users()[0];
+		if (u->outpacket.len <= 0 || u->outpacket.fragment < 3) vw_fatal("C15 warm-up did not leave a packet in flight (len %d frag %d)", u->outpacket.len, u->outpacket.fragment);
+		M.warm = 1;
+		adv_clear();
+	} else if (st0 >= 14) {
 		int lp = letter_by_name("ping"), lt = letter_by_name("tun(60B)"), ld = letter_by_name("data(last)");
 		for (int i = 0; i < 17; i++) apply(lp);
 		for (int i = 0; i < 7; i++) { apply(lt); apply(lp); }
-		for (int i = 0; i < 7; i++) apply(ld);
+		int ldu = is16 ? letter_by_name("data(last,upper)") : ld;
+		for (int i = 0; i < 7; i++) apply((i & 1) ? ldu : ld);
 		apply(lp);
 		struct tun_user *u = &s_w_users()[0];
 		if (u->outpacket.seqno != 7 || u->inpacket.seqno != 7) vw_fatal("warm-up did not park the sequence numbers (down %d up %d)", u->outpacket.seqno, u->inpacket.seqno);
@@ -511,7 +530,8 @@ int main(int argc, char **argv)
 	else { int q[] = { 0, 7, 2, 5, 4 }; for (int i = 0; i < 5; i++) STARTS[nstarts++] = q[i]; }
 	/* warmed-up sessions: C16 only (re-delivery of everything the server remembers), one level shallower */
 	int nplain = nstarts;
-	if (is16) for (int s = 14; s < NSTART; s++) STARTS[nstarts++] = s;
+	if (is16) for (int s = 14; s < 17; s++) STARTS[nstarts++] = s;
+	if (is15) for (int s = 17; s < NSTART; s++) STARTS[nstarts++] = s;
 	xp_run_jobs(nstarts * nlt, jobn, a.workers);
 	{ char names[3000] = ""; for (int i = 0; i < nlt && i < 40; i++) { strcat(names, LT[i].name); strcat(names, i + 1 < nlt ? " | " : ""); } xp_sample("alphabet (%d letters): %s", nlt, names); }
 	(void)nplain;
